@@ -26,7 +26,7 @@ func (eng) Rule() string {
 		"one process (Go randomises every map iteration), half of them built from a schema literal with shuffled insertion order, and " +
 		"the fingerprints (Result per step, Machine.Time per step, handler-call sequence) are compared. The per-case fingerprints " +
 		"are also compared across the child processes by the parent (same case id -> same fingerprint is checked for cases that are " +
-		"run twice in different children). Evaluation = one re-execution; distinct non-trivial = distinct case whose history " +
+		"run twice in different children); in a third of the cases some End handlers panic the first two times they are called. Evaluation = one re-execution; distinct non-trivial = distinct case whose history " +
 		"changed state and in which at least one auto mutation or handler ran."
 }
 func (eng) Assumptions() []string {
